@@ -203,3 +203,92 @@ Section RevalPass.
       + split; [exact IT|]. split; [|exact IC]. unfold same_skel in *. simpl. congruence.
   Qed.
 End RevalPass.
+
+(* ------------------------------------------------------------------ revalidateSubtree *)
+Lemma upd_const_eq l id x f : wf l -> find_blk id l = Some x -> upd id f l = upd id (fun _ => f (bst x)) l.
+Proof.
+  intros W F. unfold upd. apply map_ext_in. intros y Hy.
+  destruct (N.eqb_spec (bid y) id) as [E|E]; auto.
+  pose proof (wf_In_find l W y Hy) as F2. rewrite E, F in F2. inversion F2; subst. reflexivity.
+Qed.
+
+Lemma can_be_tip_unreason k r st : can_be_tip k st = true -> can_be_tip k (set_reason r false st) = true.
+Proof.
+  unfold can_be_tip, is_valid, failed, valid_upto. destruct r; simpl;
+    destruct (deleted st), (fblock st), (fpop st), (fchild st); simpl; auto; discriminate.
+Qed.
+
+Theorem revalidate_core_tips_ok s id r : Inv_flags s -> tips_ok (tkind s) (blocks s) (tips s) ->
+  (forall x, find_blk id (blocks s) = Some x -> bparent x <> None) ->
+  tips_ok (tkind s) (blocks (revalidate_core s id r)) (tips (revalidate_core s id r)) /\
+  tkind (revalidate_core s id r) = tkind s.
+Proof.
+  intros I T NR. pose proof I as [W H F L]. unfold revalidate_core.
+  destruct (find_blk id (blocks s)) as [x|] eqn:Fx; auto.
+  destruct (has_reason r (bst x)) eqn:HR; simpl; auto.
+  set (k := tkind s) in *. set (l := blocks s) in *.
+  set (l1 := upd id (set_reason r false) l).
+  set (st' := set_reason r false (bst x)).
+  assert (Fdx : failed (bst x) = true).
+  { unfold failed. destruct r; simpl in HR; rewrite HR; auto. destruct (fblock (bst x)); reflexivity. }
+  (* children of the block carry FAILED_CHILD *)
+  assert (CH : forall c y, find_blk c l = Some y -> bparent y = Some id -> fchild (bst y) = true).
+  { intros c y Fc P. eapply (fl_ok_find l W F c y id x); eauto. }
+  assert (E1 : l1 = upd id (fun _ => st') l) by (apply upd_const_eq; auto).
+  assert (Wl1 : wf l1) by (eapply same_skel_wf; [apply upd_skel|auto]).
+  assert (Fx1 : find_blk id l1 = Some (with_st x st')).
+  { unfold l1. rewrite find_upd, Fx. simpl. rewrite (find_blk_bid _ _ _ Fx), N.eqb_refl. reflexivity. }
+  (* children in l1 are the children in l *)
+  assert (CH1 : forall c y, find_blk c l1 = Some y -> bparent y = Some id -> fchild (bst y) = true).
+  { intros c y Fc P. unfold l1 in Fc. rewrite find_upd in Fc.
+    destruct (find_blk c l) as [y0|] eqn:Fc0; [|discriminate]. simpl in Fc.
+    destruct (N.eqb_spec (bid y0) id) as [Ey|Ey].
+    - exfalso. inversion Fc; subst y. simpl in P. rewrite (find_blk_bid _ _ _ Fc0) in Ey. subst c.
+      eapply (wf_parent_ne l W id y0 id); eauto.
+    - inversion Fc; subst y. eapply CH; eauto. }
+  (* doReValidate(b, reason): unsetFlag + tryAddTip *)
+  assert (T1 : tips_ok k l1 (try_add_tip k l1 (tips s) id)).
+  { unfold try_add_tip. rewrite Fx1. simpl.
+    assert (VT : is_valid_tip k l1 id st' = can_be_tip k st').
+    { unfold is_valid_tip. rewrite (proj2 (nochild_spec k l1 id Wl1)); [apply andb_true_r|].
+      intros c y Fc P. apply can_be_tip_fchild. eapply CH1; eauto. }
+    rewrite VT. rewrite E1.
+    apply (tips_improve k l id x st' (tips s) W Fx (can_be_tip_unreason k r (bst x))); auto.
+    intros c y Fc P. apply can_be_tip_fchild. eapply CH; eauto. }
+  destruct (has_other_failure r (bst x)) eqn:HO; simpl; auto.
+  (* the traversal of the children subtrees *)
+  pose proof (reval_pass_tips k id l1 Wl1 CH1) as RP.
+  assert (H2 : forall c y p yp, find_blk c l1 = Some y -> bparent y = Some p -> p <> id ->
+                find_blk p l1 = Some yp -> failed (bst yp) = true -> fchild (bst y) = true).
+  { intros c y p yp Fc P Np Fp Fd. unfold l1 in Fc, Fp. rewrite find_upd in Fc, Fp.
+    destruct (find_blk c l) as [y0|] eqn:Fc0; [|discriminate].
+    destruct (find_blk p l) as [yp0|] eqn:Fp0; [|discriminate]. simpl in Fc, Fp.
+    assert (Ep : (bid yp0 =? id)%N = false) by (apply N.eqb_neq; rewrite (find_blk_bid _ _ _ Fp0); exact Np).
+    rewrite Ep in Fp. inversion Fp; subst yp.
+    assert (C0 : fchild (bst y0) = true).
+    { eapply (fl_ok_find l W F c y0 p yp0); eauto.
+      inversion Fc; subst y. destruct (bid y0 =? id)%N; simpl in P; auto. }
+    inversion Fc; subst y. destruct (bid y0 =? id)%N; simpl; auto. rewrite set_reason_fchild. exact C0. }
+  specialize (RP H2 (try_add_tip k l1 (tips s) id) T1 l1 [] eq_refl). simpl in RP.
+  destruct (reval_pass k l1 id l1 (try_add_tip k l1 (tips s) id)) as [[l2 tp] c] eqn:M. simpl in RP. simpl.
+  destruct RP as (RT & _ & _). auto.
+Qed.
+
+Lemma update_tips_kind s ord : tkind (update_tips s ord) = tkind s.
+Proof. apply update_tips_blocks. Qed.
+
+Theorem revalidate_tips_ok s id r ord s' : Inv_flags s -> tips_ok (tkind s) (blocks s) (tips s) ->
+  revalidate s id r ord = Done s' -> tips_ok (tkind s') (blocks s') (tips s') /\ tkind s' = tkind s.
+Proof.
+  intros I T. unfold revalidate. destruct (find_blk id (blocks s)) as [x|] eqn:Fx; [|discriminate].
+  destruct (deleted (bst x)); [discriminate|]. destruct (bparent x) as [pp|] eqn:Px; [|discriminate].
+  assert (K : tips_ok (tkind s) (blocks (revalidate_core s id r)) (tips (revalidate_core s id r)) /\
+              tkind (revalidate_core s id r) = tkind s).
+  { apply revalidate_core_tips_ok; auto. intros x0 F0. rewrite Fx in F0. inversion F0; subst. congruence. }
+  destruct (negb (has_reason r (bst x))); [intros E; inversion E; subst; auto|].
+  destruct K as [K1 K2].
+  destruct (has_other_failure r (bst x)); intros E; inversion E; subst.
+  - rewrite K2. auto.
+  - destruct (update_tips_blocks (revalidate_core s id r) ord) as [UB UK].
+    rewrite UB, UK, update_tips_tips. rewrite K2. auto.
+Qed.
